@@ -235,10 +235,11 @@ func runShard(o hx.Opts, scens []Scenario, hangMs int) []result {
 					prev.ob = Obs{Died: d3, Banner: b3}
 					res.ob = toObs(e2[0])
 				} else {
-					res.crash = "lab child died during this scenario (" + banner + "), not reproduced in isolation"
+					// a race (map access, allocation against the GC): keep what was seen
+					res.ob.Banner = banner + " (not reproduced in isolation)"
 				}
 			default:
-				res.crash = "lab child died during this scenario (" + banner + "), not reproduced in isolation"
+				res.ob.Banner = banner + " (not reproduced in isolation)"
 			}
 		}
 		out = append(out, res)
